@@ -64,6 +64,22 @@ pub fn corr(tier: &str, seed: u64, c: &mut Corr) {
     }
 }
 
+/// the shared noise-tolerant comparison, with the flat-area budget widened to 0.2 % of the image:
+/// position-dependent primitives (turbulence, lighting) flip isolated interior pixels when a region
+/// coordinate moves by one unit of the 8th decimal
+fn same_image(a: &tiny_skia::Pixmap, b: &tiny_skia::Pixmap, tol: u8) -> (bool, String) {
+    let (ok, why) = crate::rend::similar(a, b, tol);
+    if ok {
+        return (true, why);
+    }
+    let nums: Vec<usize> = why.split(|c: char| !c.is_ascii_digit()).filter_map(|t| t.parse().ok()).collect();
+    let n = (a.width() * a.height()) as usize;
+    if nums.len() >= 3 && nums[0] <= 16 + n / 1000 && nums[2] <= 4 + n / 500 {
+        return (true, why);
+    }
+    (false, why)
+}
+
 fn render_at(t: &usvg::Tree, scale: f32) -> Option<tiny_skia::Pixmap> {
     let size = t.size();
     let (w, h) = ((size.width() * scale).ceil().min(400.0).max(1.0) as u32, (size.height() * scale).ceil().min(400.0).max(1.0) as u32);
@@ -88,6 +104,8 @@ pub fn search(tier: &str, seed: u64, s: &mut Search) {
             _ => {}
         }
         let vname = ["default", "id-prefix", "preserve-text", "preserve-text+prefix+single-quote"][variant as usize];
+        // signature class: text written as outlines, or preserved as text
+        let vclass = if w.preserve_text { "preserve-text" } else { "outlines" };
         let Ok(text) = pan::catch(|| t.to_string(&w)) else {
             s.finding(&format!("oracle:C08:writer-panic:{}", vname), "Tree::to_string panicked", key);
             return;
@@ -108,22 +126,48 @@ pub fn search(tier: &str, seed: u64, s: &mut Search) {
             .find(|f| text.contains(**f))
             .map(|f| f.trim_start_matches('<'))
             .unwrap_or("other");
+        // known causes get their own call-site level signature
+        let feature = if feature == "filter" || feature == "feImage" {
+            let kw = ["SourceGraphic", "SourceAlpha", "BackgroundImage", "BackgroundAlpha", "FillPaint", "StrokePaint"];
+            if kw.iter().any(|k| text.contains(&format!("result=\"{}\"", k)) || text.contains(&format!("result='{}'", k))) {
+                "filter(result-named-like-an-input-keyword)"
+            } else if text.split("type=\"saturate\" values=\"").skip(1).any(|r| r.split('"').next().and_then(|v| v.parse::<f32>().ok()).map(|v| v > 1.0).unwrap_or(false)) {
+                "filter(saturate-above-1)"
+            } else {
+                feature
+            }
+        } else {
+            feature
+        };
+        // a written text whose references do not resolve to exactly one element (C07's clause) cannot
+        // round-trip: name that cause instead of the construct
+        let mut cv = vec![];
+        crate::tree::check_written(&text, "", &mut cv);
+        let broken: Option<String> = cv.iter().find(|x| x.sig.contains("-reference:")).map(|x| x.sig.trim_start_matches("C07:").to_string());
+        let feature_owned;
+        let feature = match &broken {
+            Some(b) => {
+                feature_owned = format!("written-reference-broken({})", b);
+                feature_owned.as_str()
+            }
+            None => feature,
+        };
         let scale = if rng.chance(1, 3) { 2.0 } else { 1.0 };
         let (Some(a), Some(b)) = (render_at(&t, scale), render_at(&t2, scale)) else { return };
         let painted = a.data().chunks(4).any(|p| p[3] != 0);
         s.case(class, key, painted);
-        let (ok, why) = crate::rend::similar(&a, &b, 8);
+        let (ok, why) = same_image(&a, &b, 8);
         if !ok {
-            s.finding(&format!("oracle:C08:round-trip-changes-image:{}:{}", vname, feature), &format!("render(parse(write(T))) differs from render(T) at scale {}: {}", scale, why), key);
+            s.finding(&format!("oracle:C08:round-trip-changes-image:{}:{}", vclass, feature), &format!("[{}] render(parse(write(T))) differs from render(T) at scale {}: {}", vname, scale, why), key);
             return;
         }
         // second round trip
         let Ok(text2) = pan::catch(|| t2.to_string(&w)) else { return };
         let Ok(Ok(t3)) = pan::catch(|| usvg::Tree::from_str(&text2, &o2)) else { return };
         if let Some(c3) = render_at(&t3, scale) {
-            let (ok, why) = crate::rend::similar(&b, &c3, 4);
+            let (ok, why) = same_image(&b, &c3, 4);
             if !ok {
-                s.finding(&format!("oracle:C08:second-round-trip-changes-image:{}:{}", vname, feature), &format!("the second write/parse changes the image again: {}", why), key);
+                s.finding(&format!("oracle:C08:second-round-trip-changes-image:{}:{}", vclass, feature), &format!("[{}] the second write/parse changes the image again: {}", vname, why), key);
             }
         }
     };
